@@ -177,8 +177,10 @@ def run_part(fam: Family, tier: str, seed: int, rep: core.Report) -> None:
             fs = tlc.payloads(r.lines, "@@F")
             finals = {json.dumps(f["h"], sort_keys=True): f["fin"] for f in fs}
             lv = replay.leaves(hs + [f["h"] for f in fs])
-            if cfg.max_scenarios is not None and len(lv) > cfg.max_scenarios:
-                lv = rng.sample(lv, cfg.max_scenarios)
+            # the cap bounds the quick tier; the thorough tier replays three times as many (sampled by seed)
+            cap = None if cfg.max_scenarios is None else cfg.max_scenarios * (3 if tier == "thorough" else 1)
+            if cap is not None and len(lv) > cap:
+                lv = rng.sample(lv, cap)
             for h in lv:
                 add_scn(h, cfg, finals.get(json.dumps(h, sort_keys=True)), f"{cfg.name}:graph")
             if not cfg.check:
